@@ -1,2 +1,3 @@
 import XProofs.Properties.C12
 #print axioms Properties.C12.C12_reduce_rebuild
+#print axioms Properties.C12.C12_restored_same_behaviour
